@@ -41,7 +41,7 @@ Lemma in_mid {A} (x t:A) l1 l2 : In x (l1 ++ t :: l2) <-> x = t \/ In x (l1 ++ l
 Proof. rewrite !in_app_iff. cbn. intuition congruence. Qed.
 
 (* ---------- what is held where ---------- *)
-Definition terr (t:ftask) : option err := match fph t with FWaiting _ (Some e) => Some e | _ => None end.
+Definition terr (t:ftask) : option err := match fph t with FWaiting (Some e) => Some e | _ => None end.
 Definition alive (ts:list ftask) (rt:option (option err)) : Prop :=
   (exists t, In t ts /\ terr t <> None) \/ exists e, rt = Some (Some e).
 Definition errs_ok (P:err -> Prop) (ts:list ftask) (rt:option (option err)) : Prop :=
@@ -69,7 +69,7 @@ Proof.
   all: destruct p as [pid|]; cbn [deliver]; [|exact Hroot].
   all: destruct (take_id pid ts) as [[[a pt] b]|] eqn:Hid; [|exact Hroot].
   all: apply take_first_spec in Hid; destruct Hid as [-> _].
-  all: destruct (fph pt) as [| |n e] eqn:Hph; [exact Hroot|exact Hroot|].
+  all: destruct (fph pt) as [| |e] eqn:Hph; [exact Hroot|exact Hroot|].
   all: set (e' := match e with Some _ => e | None => r end).
   all: assert (Hpt : terr pt = e) by (unfold terr; rewrite Hph; destruct e; reflexivity).
   (* what is known: an error among the other tasks, at the root, or e' is an error *)
@@ -79,18 +79,18 @@ Proof.
           [right; unfold e'; rewrite Hpt in Hxe; destruct e; [discriminate|congruence]|left; left; eauto]
        |left; right; exact He
        |right; unfold e'; destruct e; [discriminate|exact Hr]].
-  all: destruct n as [|[|m]].
-  (* fuel 0 *)
-  1,2: cbn [fst snd]; destruct Hcases as [[Ht|He]|He'];
-       [left; exact Ht|right; apply set_root_alive; left; exact He
-       |right; apply set_root_alive; right; destruct e'; [discriminate|congruence]].
-  2,3: apply IH; destruct Hcases as [Ha|He']; [left; exact Ha|right; destruct e'; [discriminate|congruence]].
+  all: destruct (has_child pid (a ++ b)).
   (* not the last child: the parent keeps waiting, holding e' *)
-  all: cbn [fst snd]; destruct Hcases as [[(x & Hx & Hxe)|He]|He'];
+  1,3: cbn [fst snd]; destruct Hcases as [[(x & Hx & Hxe)|He]|He'];
        [left; exists x; split; [apply in_mid; right; exact Hx|exact Hxe]
        |right; exact He
-       |left; exists (with_phase pt (FWaiting (S m) e')); split; [apply in_mid; left; reflexivity|]].
-  all: unfold terr, with_phase; cbn [fph]; destruct e'; [discriminate|congruence].
+       |left; exists (with_phase pt (FWaiting e')); split; [apply in_mid; left; reflexivity|];
+        unfold terr, with_phase; cbn [fph]; destruct e'; [discriminate|congruence]].
+  (* fuel 0 *)
+  1: cbn [fst snd]; destruct Hcases as [[Ht|He]|He'];
+       [left; exact Ht|right; apply set_root_alive; left; exact He
+       |right; apply set_root_alive; right; destruct e'; [discriminate|congruence]].
+  apply IH; destruct Hcases as [Ha|He']; [left; exact Ha|right; destruct e'; [discriminate|congruence]].
 Qed.
 
 Lemma deliver_ok (P:err -> Prop) (Pw : forall p e, P e -> P (EWrap p e)) fuel : forall p r ts rt,
@@ -102,7 +102,7 @@ Proof.
   all: destruct p as [pid|]; cbn [deliver]; [|exact Hroot].
   all: destruct (take_id pid ts) as [[[a pt] b]|] eqn:Hid; [|exact Hroot].
   all: apply take_first_spec in Hid; destruct Hid as [-> _].
-  all: destruct (fph pt) as [| |n e] eqn:Hph; [exact Hroot|exact Hroot|].
+  all: destruct (fph pt) as [| |e] eqn:Hph; [exact Hroot|exact Hroot|].
   all: set (e' := match e with Some _ => e | None => r end).
   all: assert (Hpt : terr pt = e) by (unfold terr; rewrite Hph; destruct e; reflexivity).
   all: assert (He' : forall x, e' = Some x -> P x)
@@ -111,12 +111,12 @@ Proof.
         by (split; [intros t e0 Hin; apply Ht, in_mid; right; exact Hin|exact Hrt]).
   all: assert (Hres : forall x, match e' with Some y => Some (EWrap (ff pt) y) | None => None end = Some x -> P x)
         by (intros x Hx; destruct e' as [y|]; [injection Hx as <-; apply Pw, He'; reflexivity|discriminate]).
-  all: destruct n as [|[|m]].
-  1,2: cbn [fst snd]; split; [apply Hrest|apply set_root_ok; [apply Hrest|exact Hres]].
-  2,3: apply IH; [exact Hrest|exact Hres].
-  all: cbn [fst snd]; split; [|exact Hrt].
-  all: intros t e0 Hin Hte; apply in_mid in Hin; destruct Hin as [->|Hin]; [|apply (proj1 Hrest t e0 Hin Hte)].
-  all: unfold terr, with_phase in Hte; cbn [fph] in Hte; apply He'; destruct e'; [exact Hte|discriminate].
+  all: destruct (has_child pid (a ++ b)).
+  1,3: cbn [fst snd]; split; [|exact Hrt];
+       intros t e0 Hin Hte; apply in_mid in Hin; destruct Hin as [->|Hin]; [|apply (proj1 Hrest t e0 Hin Hte)];
+       unfold terr, with_phase in Hte; cbn [fph] in Hte; apply He'; destruct e'; [exact Hte|discriminate].
+  1: cbn [fst snd]; split; [apply Hrest|apply set_root_ok; [apply Hrest|exact Hres]].
+  apply IH; [exact Hrest|exact Hres].
 Qed.
 
 Lemma deliver_root fuel : forall p r ts rt, has_root ts rt \/ p = None ->
@@ -128,15 +128,15 @@ Proof.
   all: destruct H as [H|H]; [|discriminate].
   all: destruct (take_id pid ts) as [[[a pt] b]|] eqn:Hid; [|exact Hroot].
   all: apply take_first_spec in Hid; destruct Hid as [-> _].
-  all: destruct (fph pt) as [| |n e] eqn:Hph; [exact Hroot|exact Hroot|].
+  all: destruct (fph pt) as [| |e] eqn:Hph; [exact Hroot|exact Hroot|].
   all: assert (Hcases : has_root (a ++ b) rt \/ fpar pt = None)
         by (destruct H as [(x & Hx & Hp)|Hrt]; [apply in_mid in Hx; destruct Hx as [->|Hx]; [right; exact Hp|left; left; eauto]|left; right; exact Hrt]).
-  all: destruct n as [|[|m]].
-  1,2: cbn [fst snd]; right; apply set_root_some.
-  2,3: apply IH; exact Hcases.
-  all: cbn [fst snd]; destruct Hcases as [[(x & Hx & Hp)|Hrt]|Hp];
+  all: destruct (has_child pid (a ++ b)).
+  1,3: cbn [fst snd]; destruct Hcases as [[(x & Hx & Hp)|Hrt]|Hp];
        [left; exists x; split; [apply in_mid; right; exact Hx|exact Hp]|right; exact Hrt
        |left; eexists; split; [apply in_mid; left; reflexivity|exact Hp]].
+  1: cbn [fst snd]; right; apply set_root_some.
+  apply IH; exact Hcases.
 Qed.
 
 Lemma spawn_in par d next kids x : In x (spawn par d next kids) -> fph x = FEntry /\ fpar x = Some par.
@@ -196,7 +196,7 @@ Qed.
 
 Lemma finv_step_on s a t b : FInv s -> ftasks s = a ++ t :: b -> FInv (fstep_on R g fl maxd s (a, t, b)).
 Proof.
-  intros I Hs. cbn [fstep_on]. destruct (fph t) as [| |n e] eqn:Hph; [| |exact I].
+  intros I Hs. cbn [fstep_on]. destruct (fph t) as [| |e] eqn:Hph; [| |exact I].
   - (* at the entry *)
     assert (Hte : terr t = None) by (unfold terr; rewrite Hph; reflexivity).
     assert (Hdone : FInv (finish s (a ++ b) t None (fcl s) (freads s))).
@@ -223,7 +223,7 @@ Proof.
       destruct (g (ff t)) as [|k ks] eqn:Hg.
       * apply finv_finish; [exact I|exact Hs|exact Hte|exact Hincl|discriminate|intros H; left; apply Hbad, H].
       * destruct I as [[Hok1 Hok2] Hroot Halive]. rewrite Hs in *.
-        set (t' := with_phase t (FWaiting (length (k :: ks)) None)).
+        set (t' := with_phase t (FWaiting None)).
         set (sp := spawn (fid t) (S (fdepth t)) (fnext s) (k :: ks)).
         assert (Hin' : forall x, In x (a ++ t' :: b ++ sp) -> x = t' \/ In x (a ++ b) \/ In x sp).
         { intros x Hx. apply in_app_iff in Hx. destruct Hx as [Hx|[<-|Hx]]; [right; left; apply in_app_iff; auto|left; reflexivity|].
